@@ -180,3 +180,41 @@ Definition picture_of_plus (scal : bool) (h : plus_header) : picture :=
     (p_quant h) (p_cpm h)
     (if p_type h =? 2 then Some (p_trb h) else None) (if p_type h =? 2 then Some (5 + p_dbquant h) else None)
     (p_extra h).
+
+(* ---- PLUSPTYPE with UFEP = 000: OPPTYPE and its followers are not retransmitted; the optional modes of OPPTYPE
+   are those of the previous header (`inh`); TRPI/BCI are present iff reference picture selection is inherited ---- *)
+Record plus0_header := mkPlus0 {
+  q_tr : Z; q_split : bool; q_doccam : bool; q_freeze : bool;
+  q_type : Z; q_rru : bool; q_rtype : bool;
+  q_cpm : option Z; q_elnum : Z; q_trp : option Z;
+  q_quant : Z; q_trb : Z; q_dbquant : Z; q_extra : list Z }.
+
+Definition enc_plus0 (scal rps : bool) (h : plus0_header) : list bool :=
+  start_code ++ bits_of 5 0 ++ bits_of 8 (q_tr h)
+  ++ [true; false; q_split h; q_doccam h; q_freeze h] ++ bits_of 3 7
+  ++ bits_of 3 0                                                                   (* UFEP = 000 *)
+  ++ (bits_of 3 (q_type h) ++ [false; q_rru h; q_rtype h; false; false; true])     (* MPPTYPE *)
+  ++ (match q_cpm h with None => [false] | Some p => true :: bits_of 2 p end)
+  ++ (if scal then bits_of 4 (q_elnum h) else [])                                  (* ELNUM; RLNUM only with UFEP = 001 *)
+  ++ (if rps then (match q_trp h with None => [false] | Some t => true :: bits_of 10 t end) ++ [false; true] else [])
+  ++ bits_of 5 (q_quant h)
+  ++ (if q_type h =? 2 then bits_of 3 (q_trb h) ++ bits_of 2 (q_dbquant h) else [])
+  ++ enc_pei (q_extra h).
+
+Definition wf_plus0 (h : plus0_header) : Prop :=
+  0 <= q_tr h < 256 /\ 0 <= q_type h < 8 /\
+  (match q_cpm h with None => True | Some p => 0 <= p < 4 end) /\ 0 <= q_elnum h < 16 /\
+  (match q_trp h with None => True | Some t => 0 <= t < 1024 end) /\
+  0 <= q_quant h < 32 /\ 0 <= q_trb h < 8 /\ 0 <= q_dbquant h < 4 /\ Forall byte_ok (q_extra h).
+
+(* inh: the previous header's options restricted to the OPPTYPE modes *)
+Definition picture_of_plus0 (scal : bool) (inh : Z) (h : plus0_header) : picture :=
+  mkPicture None (q_tr h) None
+    (Z.lor (flag_if (q_split h) USE_SPLIT_SCREEN + flag_if (q_doccam h) USE_DOCUMENT_CAMERA + flag_if (q_freeze h) RELEASE_FULL_PICTURE_FREEZE)
+       (Z.lor inh (flag_if false REFERENCE_PICTURE_RESAMPLING + flag_if (q_rru h) REDUCED_RESOLUTION_UPDATE + flag_if (q_rtype h) ROUNDING_TYPE_ONE)))
+    true false (plus_type (q_type h)) None None
+    (if scal then Some (q_elnum h, None) else None) None
+    (if Z.testbit inh 9 then q_trp h else None)
+    (q_quant h) (q_cpm h)
+    (if q_type h =? 2 then Some (q_trb h) else None) (if q_type h =? 2 then Some (5 + q_dbquant h) else None)
+    (q_extra h).
